@@ -614,8 +614,11 @@ impl FromBase32 for Description {
 	fn from_base32(field_data: &[Fe32]) -> Result<Description, Bolt11ParseError> {
 		let bytes = Vec::<u8>::from_base32(field_data)?;
 		let description = String::from_utf8(bytes)?;
-		Ok(Description::new(description)
-			.expect("Max len is 639=floor(1023*5/8) since the len field is only 10bits long"))
+		// A tagged field holds at most 1023 symbols, i.e. 639 bytes, but this may be called with
+		// any slice.
+		Description::new(description).map_err(|_| {
+			Bolt11ParseError::InvalidSliceLength(field_data.len(), 1023, "Description")
+		})
 	}
 }
 
